@@ -131,8 +131,8 @@ def should_strip_query_item(
     elif normalize_amp and key in AMP_QUERY_COMBOS:
         return value in AMP_QUERY_COMBOS[key]
 
-    if domain_filter is not None:
-        return domain_filter(key, value)
+    if domain_filter is not None and domain_filter(key, value):
+        return True
 
     if query_item_filter is not None:
         return not query_item_filter(key, value)
